@@ -351,11 +351,19 @@ class C05(Monitor):
         self.fare = collections.defaultdict(float)
         self.paid = collections.defaultdict(float)
         self.recv = collections.defaultdict(float)
+        # the tariff table of the input, read independently of the code (generated scenarios only)
+        self.table = None
+        if isinstance(ctx.spec, dict) and "stations" in ctx.spec and "sim" in ctx.spec:
+            from hivemon.monitors.calendar import TariffModel
+
+            self.table = TariffModel(ctx.spec, ctx.s)
 
     def on_step(self, ctx):
         s, prev = ctx.s, ctx.prev
         from nrel.hive.model.energy.energytype import EnergyType
 
+        if self.table is not None:
+            self.table.advance(ctx.t)
         # per charge step: one transacted amount applied to both sides at the tariff in force
         step_paid = collections.defaultdict(float)
         step_recv = collections.defaultdict(float)
@@ -379,6 +387,13 @@ class C05(Monitor):
                 ctx.violate("C05", "payment-not-received-in-full", f"{ev['vid']} paid {pay} but station {ev['sid']} received {rcv}", vehicle=ev["vid"], station=ev["sid"])
             if tariff is not None and abs(pay - de * tariff) > 1e-9 * max(1.0, abs(de * tariff)) + 1e-9:
                 ctx.violate("C05", "payment-not-at-tariff", f"{ev['vid']} paid {pay} for {de} at tariff {tariff} (= {de*tariff}) on {ev['sid']}/{ev['cid']}", vehicle=ev["vid"], station=ev["sid"])
+            acc = self.table.accepted.get((ev["sid"], ev["cid"])) if self.table is not None else None
+            if acc is not None:
+                ctx.count("c05_charge_steps_priced_against_the_tariff_table")
+                if any(acc):
+                    ctx.count("c05_charge_steps_with_nonzero_table_price")
+                if not any(abs(pay - de * p) <= 1e-9 * max(1.0, abs(de * p)) + 1e-9 for p in acc):
+                    ctx.violate("C05", "payment-not-at-tariff-table-price", f"{ev['vid']} paid {pay} for {de} on {ev['sid']}/{ev['cid']} at t={ctx.t}; the tariff table says {sorted(acc)} per unit (= {[de * p for p in sorted(acc)]})", vehicle=ev["vid"], station=ev["sid"], plug=ev["cid"])
             if abs(disp - gained) > 1e-9 * max(1.0, abs(gained)) + 1e-12:
                 ctx.violate("C05", "dispensed-differs-from-gained", f"station {ev['sid']} booked {disp} dispensed, vehicle {ev['vid']} gained {gained}", vehicle=ev["vid"], station=ev["sid"])
             if tariff:
